@@ -35,6 +35,7 @@ RULE = ("15 document shapes (external sources command/file/URL at top level and 
         "caller, derived}; plus seeded random document trees; distinct = distinct (document, caller, environment, mode); "
         "non-trivial = the document contains at least one external-source or vars-using item"
         "; caller allow-lists incl. the empty one")
+RULE += '; round 4: vars file in a directory differing from the allowed one in letter case only'
 ASSUMPTIONS = [
     "effects are observed through CPython audit events and marker files; an effect that raises no audit event and leaves no marker is invisible",
     "the sandbox has no network: URL sources are observed as connection attempts to a closed loopback port and always fail",
